@@ -53,7 +53,9 @@ impl InnerFunctionManager {
             Arc::new(|params| {
                 let mut ans = Decimal::ZERO;
                 for param in params.into_iter() {
-                    ans += param.decimal()?;
+                    ans = ans
+                        .checked_add(param.decimal()?)
+                        .ok_or(Error::NumberOverflow)?;
                 }
                 Ok(Value::Number(ans))
             }),
@@ -64,7 +66,9 @@ impl InnerFunctionManager {
             Arc::new(|params| {
                 let mut ans = Decimal::ONE;
                 for param in params.into_iter() {
-                    ans *= param.decimal()?;
+                    ans = ans
+                        .checked_mul(param.decimal()?)
+                        .ok_or(Error::NumberOverflow)?;
                 }
                 Ok(Value::Number(ans))
             }),
